@@ -233,7 +233,78 @@ func c13Scenarios(disk bool) []*schedScenario {
 				return "done"
 			}}},
 		})
+		// s8b: the same uncached certificate is looked up twice on one checker and once on a second checker at the same
+		// time (all three miss, fetch and add to the process-wide table)
+		scs = append(scs, &schedScenario{Name: "s8b-ocsp-same-certificate-thrice", Class: "ocsp",
+			Setup: func(x *schedCtx) {
+				net := world.NewNet()
+				for ci := range oc.certs {
+					iss := oc.issuers[ci]
+					net.Routes[oc.urls[ci]] = &world.Behaviour{Label: "ocsp", Fn: func(req *httpRequestAlias, body []byte) (int, []byte, error) {
+						r, err := xocsp.ParseRequest(body)
+						if err != nil {
+							return 400, nil, nil
+						}
+						st := xocsp.Good
+						if iss == oc.caA && r.SerialNumber.Cmp(oc.c1.Cert.SerialNumber) == 0 {
+							st = xocsp.Revoked
+						}
+						return 200, world.BuildOCSP(world.OCSPAnswer{Status: st, Serial: r.SerialNumber, Issuer: iss, Signer: iss, ThisUpdate: vsched.Epoch.Add(-time.Minute)}), nil
+					}}
+				}
+				x.Vals["ow"] = []*OW{NewOW(false, 10*time.Minute, nil, net), NewOW(false, 10*time.Minute, nil, net)}
+			},
+			Ops: []schedOp{ocspLookup(0, 0), ocspLookup(0, 0), ocspLookup(1, 0)},
+		})
 	}
+	// s10: first use of two different distribution points at the same time (two new entries in the repository map)
+	scs = append(scs, &schedScenario{Name: name("s10-first-use-two-locations"),
+		Setup: func(x *schedCtx) {
+			w := c.mkWorld(x, base)
+			w.Net.Serve(urlA, "v1", c.v1)
+			w.Net.Serve(urlB, "vb", c.vb)
+		},
+		Ops: []schedOp{c.hs(0, c.L1), c.hs(0, c.L3)},
+	})
+	// s11: two CRLs are loaded; a handshake walks over both while a tick refreshes both (the first one to a new version)
+	scs = append(scs, &schedScenario{Name: name("s11-lookup-over-two-crls-vs-refresh"),
+		Setup: func(x *schedCtx) {
+			w := c.mkWorld(x, base)
+			w.Net.Serve(urlA, "v1", c.v1)
+			w.Net.Serve(urlB, "vb", c.vb)
+			w.Lookup(c.L1, world.Chain(c.L1, c.p.CA, c.p.Root))
+			w.Lookup(c.L3, world.Chain(c.L3, c.p.CA, c.p.Root))
+			w.Net.Serve(urlA, "v2", c.v2)
+		},
+		Ops: []schedOp{c.hs(0, c.L3), refreshOp(0), c.hs(0, c.L2)},
+	})
+	// s12: a second validator instance is provisioned (process-wide registry, update mutex, startup sweep of its own
+	// work_dir, configured CRL loaded) while the first one serves a handshake and refreshes
+	scs = append(scs, &schedScenario{Name: name("s12-provision-second-instance-vs-first"), ThoroughOnly: disk,
+		Setup: func(x *schedCtx) {
+			w := c.mkWorld(x, base)
+			w.Net.Serve(urlA, "v1", c.v1)
+			w.Net.Serve(urlB, "vb", c.vb)
+			w.Lookup(c.L1, world.Chain(c.L1, c.p.CA, c.p.Root))
+		},
+		Ops: []schedOp{
+			{Name: "provision(V2)", Fn: func(x *schedCtx) string {
+				o := base
+				o.Net = x.W[0].Net
+				o.URLs = []string{urlB}
+				o.Trusted = []*x509Cert{c.p.CA.Cert}
+				w2 := NewCW(o)
+				x.W = append(x.W, w2) // torn down with the scenario
+				if err := w2.Provision(); err != nil {
+					return "ERR"
+				}
+				// the configured CRL must be in force for the second instance as soon as Provision returned
+				l := world.Leaf(c.p.CA, bi(103), nil, nil)
+				return "provisioned," + w2.Lookup(l, world.Chain(l, c.p.CA, c.p.Root)).String()
+			}},
+			c.hs(0, c.L1), refreshOp(0),
+		},
+	})
 	// s9: two validator instances refreshing concurrently + a handshake
 	scs = append(scs, &schedScenario{Name: name("s9-two-instances"),
 		Setup: func(x *schedCtx) {
